@@ -81,9 +81,18 @@ ArithFeat(op, a, b) ==
     \cup (IF op = "**" THEN {"pow"} ELSE {})
     \cup (IF a.t = "b" \/ b.t = "b" THEN {"bool-arith"} ELSE {})
 
+(* token concatenation: adjacent text tokens fuse, as they do in the printed line *)
+RECURSIVE Fuse(_, _)
+Fuse(acc, ts) ==
+    IF ts = <<>> THEN acc
+    ELSE IF acc # <<>> /\ acc[Len(acc)].k = "t" /\ ts[1].k = "t"
+         THEN Fuse([acc EXCEPT ![Len(acc)] = TT(@.v \o ts[1].v)], Tail(ts))
+         ELSE Fuse(Append(acc, ts[1]), Tail(ts))
+Cat(a, b) == Fuse(a, b)
+
 Arith(op, a, b) ==
     IF ~IsNum(a) \/ ~IsNum(b) THEN
-        (IF op = "+" /\ a.t = "s" /\ b.t = "s" THEN VS(a.v \o b.v) ELSE ERR)
+        (IF op = "+" /\ a.t = "s" /\ b.t = "s" THEN VS(Cat(a.v, b.v)) ELSE ERR)
     ELSE IF op \in {"&", "|", "^", "<<", ">>"} THEN
         (IF ~IsInty(a) \/ ~IsInty(b) \/ AsInt(a) < 0 \/ AsInt(b) < 0 THEN ERR
          ELSE IF op = "<<" THEN (IF AsInt(b) > 14 THEN ERR ELSE ChkI(AsInt(a) * Pow(2, AsInt(b))))
@@ -124,14 +133,6 @@ ToToks(v) == CASE v.t = "i" -> <<TN(v.v, 1)>>
                [] v.t = "f" -> <<TN(v.n, v.d)>>
                [] v.t = "s" -> v.v
                [] OTHER -> <<TT("?")>>
-(* token concatenation: adjacent text tokens fuse, as they do in the printed line *)
-RECURSIVE Fuse(_, _)
-Fuse(acc, ts) ==
-    IF ts = <<>> THEN acc
-    ELSE IF acc # <<>> /\ acc[Len(acc)].k = "t" /\ ts[1].k = "t"
-         THEN Fuse([acc EXCEPT ![Len(acc)] = TT(@.v \o ts[1].v)], Tail(ts))
-         ELSE Fuse(Append(acc, ts[1]), Tail(ts))
-Cat(a, b) == Fuse(a, b)
 (* a string is "plain" when it has no numeric token next to another token in a way the line tokenizer could
    re-split differently; the generator keeps separators, the spec flags the rest as ill-defined *)
 RECURSIVE TokLen(_)
